@@ -36,7 +36,7 @@ fn gen_vector(r: &mut SplitMix64, nstates: usize) -> Vec<Trans> {
         targets.swap(i, j);
     }
     let n = (r.range(1, 8) as usize).min(targets.len());
-    let mode = r.below(7);
+    let mode = r.below(9);
     let mut probs: Vec<f32> = vec![];
     match mode {
         0 => probs.push(1.0),
@@ -61,6 +61,25 @@ fn gen_vector(r: &mut SplitMix64, nstates: usize) -> Vec<Trans> {
             for _ in 0..n {
                 probs.push(*r.pick(&[1.1920929e-7f32, 1.1920930e-7, 2.3841858e-7, 0.5, 0.25, 0.24999999, 0.33333334, 0.3333333]));
             }
+        }
+        7 | 8 => {
+            // a remainder 1 - sum that is small but not zero (a few draws up to 1%): the share on which
+            // NO transition may be taken, next to every landmark a tolerance constant could sit at
+            let d = *r.pick(&[5.9604645e-8f64, 1.1920929e-7, 1.7881393e-7, 9.536743e-7, 1e-6, 1e-5, 5e-5, 9.9e-5, 1e-4, 1.01e-4, 5e-4, 1e-3, 1e-2]);
+            let total = 1.0 - d;
+            let w: Vec<f64> = (0..n).map(|_| (r.below(100000) + 1) as f64).collect();
+            let s: f64 = w.iter().sum();
+            let mut acc = 0.0f64;
+            for (k, x) in w.iter().enumerate() {
+                if k + 1 == w.len() {
+                    probs.push((total - acc) as f32);
+                } else {
+                    let p = (x / s * total) as f32;
+                    acc += p as f64;
+                    probs.push(p);
+                }
+            }
+            probs.retain(|p| *p > 0.0);
         }
         _ => {
             let total = *r.pick(&[1.0f64, 1.0, 0.999, 0.5, 0.01]);
